@@ -8,11 +8,9 @@ count, not a wall-clock budget -- and results are aggregated in run-index order,
 outcome does not depend on the number of worker processes.
 """
 import collections
-import concurrent.futures
 import faulthandler
 import hashlib
 import json
-import multiprocessing
 import os
 import random
 import subprocess
@@ -164,9 +162,9 @@ _WORKER_FN = None
 
 
 def _batch_entry(args):
-    """Runs in a forked worker: execute run indexes [lo, hi) and return the aggregate."""
+    """Runs in a freshly forked child: execute run indexes [lo, hi) and return the aggregate."""
     base_seed, lo, hi, opts = args
-    faulthandler.dump_traceback_later(opts.get("batch_timeout", 600), exit=True)
+    faulthandler.dump_traceback_later(opts.get("batch_timeout", 900), exit=True)
     try:
         stats = Stats()
         violations = []
@@ -180,12 +178,86 @@ def _batch_entry(args):
                 stats.count("violating_runs")
                 if len(violations) < 4 or all(v.signature != w[1]["signature"] for w in violations):
                     if len(violations) < 40:
-                        violations.append((idx, v.to_json()))
+                        vj = v.to_json()
+                        vj["batch_lo"] = lo
+                        violations.append((idx, vj))
         return {"lo": lo, "stats": stats, "violations": violations, "log": logd.hexdigest()}
     except Exception:
         return {"lo": lo, "error": traceback.format_exc()}
     finally:
         faulthandler.cancel_dump_traceback_later()
+
+
+def _spawn(job):
+    """Fork a child that runs one batch and pickles its result into a pipe.
+
+    Every batch starts from the parent's state (the library imported, no run executed yet), so a
+    batch is hermetic: state the library keeps between calls (caches, globals) can only come from
+    earlier runs of the SAME batch, and re-running the batch prefix in a fresh process reproduces it.
+    """
+    import pickle
+
+    r, w = os.pipe()
+    sys.stdout.flush()
+    sys.stderr.flush()
+    pid = os.fork()
+    if pid == 0:
+        code = 0
+        try:
+            os.close(r)
+            data = pickle.dumps(_batch_entry(job), protocol=pickle.HIGHEST_PROTOCOL)
+            with os.fdopen(w, "wb") as fh:
+                fh.write(data)
+        except BaseException:
+            traceback.print_exc()
+            code = 1
+        finally:
+            os._exit(code)
+    os.close(w)
+    return pid, r
+
+
+def run_batches(jobs, workers, batch_timeout):
+    """Run jobs in at most `workers` concurrent forked children; return their results (any order)."""
+    import pickle
+    import select
+
+    results = []
+    pending = list(reversed(jobs))
+    running = {}  # read fd -> [pid, job, chunks, t0]
+    try:
+        while pending or running:
+            while pending and len(running) < workers:
+                job = pending.pop()
+                pid, r = _spawn(job)
+                running[r] = [pid, job, [], time.time()]
+            ready, _, _ = select.select(list(running), [], [], 5.0)
+            for r in ready:
+                chunk = os.read(r, 1 << 20)
+                if chunk:
+                    running[r][2].append(chunk)
+                    continue
+                pid, job, chunks, _t0 = running.pop(r)
+                os.close(r)
+                _, status = os.waitpid(pid, 0)
+                data = b"".join(chunks)
+                if not data:
+                    how = "signal %d" % os.WTERMSIG(status) if os.WIFSIGNALED(status) else "exit %d" % os.WEXITSTATUS(status)
+                    raise HarnessError("worker for runs [%d, %d) died (%s) without a result; see stderr" % (job[1], job[2], how))
+                results.append(pickle.loads(data))
+            now = time.time()
+            for r, (pid, job, _c, t0) in list(running.items()):
+                if now - t0 > batch_timeout + 60:
+                    raise HarnessError("worker for runs [%d, %d) exceeded the wall-clock guard" % (job[1], job[2]))
+    finally:
+        for r, (pid, _job, _c, _t0) in running.items():
+            try:
+                os.kill(pid, 9)
+                os.waitpid(pid, 0)
+                os.close(r)
+            except OSError:
+                pass
+    return results
 
 
 def farm(run_fn, base_seed, n_runs, opts=None, workers=None, batch=None):
@@ -201,40 +273,7 @@ def farm(run_fn, base_seed, n_runs, opts=None, workers=None, batch=None):
         batch = max(1, min(200, n_runs // (workers * 8) or 1))
     _WORKER_FN = run_fn
     jobs = [(base_seed, lo, min(lo + batch, n_runs), opts) for lo in range(0, n_runs, batch)]
-    results = []
-    if workers == 1:
-        for j in jobs:
-            results.append(_batch_entry(j))
-    else:
-        ctx = multiprocessing.get_context("fork")
-        ex = concurrent.futures.ProcessPoolExecutor(max_workers=workers, mp_context=ctx)
-        clean = False
-        try:
-            futs = [ex.submit(_batch_entry, j) for j in jobs]
-            deadline = opts.get("farm_timeout", 3 * 3600)
-            t0 = time.time()
-            for f in futs:
-                left = max(1.0, deadline - (time.time() - t0))
-                try:
-                    results.append(f.result(timeout=left))
-                except concurrent.futures.TimeoutError:
-                    raise HarnessError("run farm exceeded its wall-clock guard (%ds)" % deadline)
-                except concurrent.futures.process.BrokenProcessPool:
-                    raise HarnessError(
-                        "a worker process died (hang guard fired or crash); see stderr"
-                    )
-            clean = True
-        finally:
-            procs = list((getattr(ex, "_processes", None) or {}).values())
-            if clean:
-                ex.shutdown(wait=True)
-            else:
-                ex.shutdown(wait=False, cancel_futures=True)
-                for p in procs:
-                    try:
-                        p.kill()
-                    except Exception:
-                        pass
+    results = run_batches(jobs, workers, opts.get("batch_timeout", 900))
     results.sort(key=lambda r: r["lo"])
     total = Stats()
     violations = []
@@ -247,6 +286,16 @@ def farm(run_fn, base_seed, n_runs, opts=None, workers=None, batch=None):
         logd.update(r["log"].encode())
     violations.sort(key=lambda iv: iv[0])
     return total, violations, logd.hexdigest()
+
+
+def rerun_range(run_fn, base_seed, lo, hi, opts):
+    """Re-execute runs [lo, hi] in ONE fresh child, in order; return the violations found."""
+    global _WORKER_FN
+    _WORKER_FN = run_fn
+    res = run_batches([(base_seed, lo, hi + 1, dict(opts or {}))], 1, 900)[0]
+    if "error" in res:
+        raise HarnessError("worker raised:\n" + res["error"])
+    return res["violations"]
 
 
 # --------------------------------------------------------------------------- findings
